@@ -358,7 +358,7 @@ func runC14(c *core.Ctx) {
 			setOK := false
 			core.Instrs(st, func(ins ssa.Instruction) {
 				if call, isC := ins.(*ssa.Call); isC && core.InstrDominates(ins, goIns) {
-					if g := core.Callee(&call.Call); g != nil && core.FuncName(g) == "fpgo.AtomBool.Set" && core.FieldKey(call.Call.Args[0]) == "CorDef.isStarted" && isTrueConst(call.Call.Args[1]) {
+					if g := core.Callee(&call.Call); g != nil && core.IsAtomSet(g) && core.FieldKey(call.Call.Args[0]) == "CorDef.isStarted" && isTrueConst(call.Call.Args[1]) {
 						setOK = true
 					}
 				}
@@ -410,10 +410,7 @@ func runC14(c *core.Ctx) {
 		c.Check(ok, "R2", "CorDef.StartWithVal", p.Pos(sv.Pos()), "receive(nil, in) precedes Start()", "the initial value is not enqueued (as receive(nil, in)) before the coroutine is started: a caller that sees IsStarted can get its request in front of it, shifting every later pairing")
 	}
 	// the signalling closure: the one closure of the method that calls Done()
-	callsDone := func(ins ssa.Instruction) bool {
-		call, isC := ins.(*ssa.Call)
-		return isC && core.StdCallee(&call.Call) == "sync.(WaitGroup).Done"
-	}
+	callsDone := func(ins ssa.Instruction) bool { return c14isSignal(ins) }
 	if dn := p.Method(p.Fpgo, "CorDef", "DoNotation"); dn == nil || core.ClosureContaining(dn, callsDone) == nil {
 		c.Unknown("R2", "CorDef.DoNotation", "-", "method or closure not found")
 	} else {
@@ -443,40 +440,104 @@ func runC14(c *core.Ctx) {
 	}
 }
 
-// c14waitShape: parent does wg.Add(1) → trigger (exactly once) → wg.Wait() → return result; closure assigns (isAssign) then wg.Done(), each once.
+// c14isSignal: the instruction announces "the result is ready" - wg.Done(), or a close of / send on a local channel.
+func c14isSignal(ins ssa.Instruction) bool {
+	switch x := ins.(type) {
+	case *ssa.Call:
+		if core.StdCallee(&x.Call) == "sync.(WaitGroup).Done" {
+			return true
+		}
+		if core.IsBuiltin(&x.Call, "close") && core.FieldKey(x.Call.Args[0]) == "" {
+			return true
+		}
+	case *ssa.Send:
+		return core.FieldKey(x.Chan) == ""
+	}
+	return false
+}
+
+// c14waitShape: the parent arms a one-shot signal (wg.Add(1), or makes a channel), triggers (exactly once), waits
+// (wg.Wait() / a receive on that channel) and only then returns the result; the closure assigns (isAssign) and then
+// raises the signal (wg.Done() / close or send on the same channel), each once.
 func c14waitShape(p *core.Prog, parent, cl *ssa.Function, isAssign func(ssa.Instruction) bool, trigger string) (bool, string) {
 	adds := callsOf(parent, "sync.(WaitGroup).Add")
-	waits := callsOf(parent, "sync.(WaitGroup).Wait")
+	waitCalls := callsOf(parent, "sync.(WaitGroup).Wait")
 	trig := callsOf(parent, trigger)
-	if len(adds) != 1 || len(waits) != 1 || len(trig) != 1 {
-		return false, fmt.Sprintf("expected one Add, one %s, one Wait (found %d, %d, %d)", trigger, len(adds), len(trig), len(waits))
+	var wait ssa.Instruction
+	var armed ssa.Instruction
+	var sigChan ssa.Value // channel form: the MakeChan the waiter receives from
+	switch {
+	case len(adds) == 1 && len(waitCalls) == 1:
+		if !core.IsIntConst(adds[0].Call.Args[1], 1) {
+			return false, "WaitGroup.Add is not Add(1)"
+		}
+		wait, armed = waitCalls[0], adds[0]
+	case len(adds) == 0 && len(waitCalls) == 0:
+		n := 0
+		core.Instrs(parent, func(ins ssa.Instruction) {
+			if u, isU := ins.(*ssa.UnOp); isU && u.Op == token.ARROW {
+				if mk, isMk := core.Resolve(u.X).(*ssa.MakeChan); isMk {
+					n++
+					wait, armed, sigChan = u, mk, mk
+				}
+			}
+		})
+		if n != 1 {
+			return false, fmt.Sprintf("expected one Add(1)/Wait pair or one receive on a channel made here (found %d receives)", n)
+		}
+	default:
+		return false, fmt.Sprintf("expected one Add and one Wait (found %d, %d)", len(adds), len(waitCalls))
 	}
-	if !core.IsIntConst(adds[0].Call.Args[1], 1) {
-		return false, "WaitGroup.Add is not Add(1)"
+	if len(trig) != 1 {
+		return false, fmt.Sprintf("expected one %s (found %d)", trigger, len(trig))
 	}
-	if !(core.InstrDominates(adds[0], trig[0]) && core.InstrDominates(trig[0], waits[0])) {
-		return false, "order Add → start → Wait is broken"
+	if !(core.InstrDominates(armed, trig[0]) && core.InstrDominates(trig[0], wait)) {
+		return false, "order arm → start → wait is broken"
 	}
 	okRet := true
 	core.Instrs(parent, func(ins ssa.Instruction) {
-		if r, isR := ins.(*ssa.Return); isR && r.Block() != parent.Recover && !core.InstrDominates(waits[0], r) {
+		if r, isR := ins.(*ssa.Return); isR && r.Block() != parent.Recover && !core.InstrDominates(wait, r) {
 			okRet = false
 		}
 	})
 	if !okRet {
-		return false, "a return is not preceded by Wait(): the result may be read before it is assigned"
+		return false, "a return is not preceded by the wait: the result may be read before it is assigned"
 	}
 	var assign, done ssa.Instruction
+	nSig := 0
 	core.Instrs(cl, func(ins ssa.Instruction) {
 		if isAssign(ins) {
 			assign = ins
 		}
-		if call, isC := ins.(*ssa.Call); isC && core.StdCallee(&call.Call) == "sync.(WaitGroup).Done" {
+		if c14isSignal(ins) {
+			nSig++
 			done = ins
 		}
 	})
+	if nSig != 1 {
+		done = nil
+	}
+	if done != nil && sigChan != nil {
+		// the signal must be raised on the channel the waiter receives from
+		var ch ssa.Value
+		switch x := done.(type) {
+		case *ssa.Call:
+			if core.IsBuiltin(&x.Call, "close") {
+				ch = x.Call.Args[0]
+			}
+		case *ssa.Send:
+			ch = x.Chan
+		}
+		if ch == nil || core.Resolve(capturedBinding(parent, cl, core.Path(ch))) != sigChan {
+			return false, "the closure does not signal on the channel the waiter receives from"
+		}
+	} else if done != nil && sigChan == nil {
+		if call, isC := done.(*ssa.Call); !isC || core.StdCallee(&call.Call) != "sync.(WaitGroup).Done" {
+			return false, "the closure does not call Done on the WaitGroup the waiter waits for"
+		}
+	}
 	if assign == nil || done == nil || !core.InstrDominates(assign, done) {
-		return false, "the closure does not assign the result before signalling Done (the waiter can return a stale value)"
+		return false, "the closure does not assign the result before signalling (the waiter can return a stale value)"
 	}
 	dmin, dmax := core.PathCount(cl, func(ins ssa.Instruction) int {
 		if ins == done {
@@ -485,9 +546,9 @@ func c14waitShape(p *core.Prog, parent, cl *ssa.Function, isAssign func(ssa.Inst
 		return 0
 	}, nil)
 	if dmin != 1 || dmax != 1 {
-		return false, "Done is not called exactly once"
+		return false, "the signal is not raised exactly once"
 	}
-	return true, "Add(1) → start once → closure assigns then Done → Wait dominates the return"
+	return true, "arm → start once → closure assigns then signals → wait dominates the return"
 }
 
 // c14notStarted: block b is on the not-started edge of a test of the started flag of base.
